@@ -1,2 +1,376 @@
-// Package c16 is the check for property C16 (see DESIGN.md section 3).
+// Package c16 is the check for property C16: configuration files round-trip, writing is
+// idempotent, and migration of v1/v1beta1 workspaces to v2 preserves files, descriptors and
+// lint / breaking results per module.
+//
+// Bounded exhaustive exploration (engine B): every document of an explicit grammar (frame x
+// all feature vectors with at most t non-zero dimensions, t = 2 quick / 3 thorough) is pushed
+// through the real readers and writers; every generated v1/v1beta1 workspace is migrated with the
+// real migrator and built / linted / breaking-checked before and after.
 package c16
+
+import (
+	"fmt"
+	"sort"
+	"strings"
+	"sync"
+	"time"
+
+	"github.com/bufbuild/bufverif/internal/evid"
+)
+
+func init() {
+	evid.Register(&evid.Check{ID: "C16", Level: "exploration", Run: run, QuickBudget: 150 * time.Second, ThoroughBudget: 20 * time.Minute})
+}
+
+// counter is a concurrency-safe string -> count map for coverage facts.
+type counter struct {
+	mu sync.Mutex
+	m  map[string]int
+}
+
+func newCounter() *counter { return &counter{m: map[string]int{}} }
+
+func (c *counter) add(k string, n int) {
+	c.mu.Lock()
+	c.m[k] += n
+	c.mu.Unlock()
+}
+
+func (c *counter) get(k string) int {
+	c.mu.Lock()
+	defer c.mu.Unlock()
+	return c.m[k]
+}
+
+func (c *counter) snapshot() map[string]int {
+	c.mu.Lock()
+	defer c.mu.Unlock()
+	out := make(map[string]int, len(c.m))
+	for k, v := range c.m {
+		out[k] = v
+	}
+	return out
+}
+
+// top returns the n most frequent keys as "count x key".
+func (c *counter) top(n int) []string {
+	s := c.snapshot()
+	keys := make([]string, 0, len(s))
+	for k := range s {
+		keys = append(keys, k)
+	}
+	sort.Slice(keys, func(i, j int) bool {
+		if s[keys[i]] != s[keys[j]] {
+			return s[keys[i]] > s[keys[j]]
+		}
+		return keys[i] < keys[j]
+	})
+	if len(keys) > n {
+		keys = keys[:n]
+	}
+	out := make([]string, len(keys))
+	for i, k := range keys {
+		out[i] = fmt.Sprintf("%d x %s", s[k], k)
+	}
+	return out
+}
+
+func run(r *evid.Run) {
+	t := 2
+	if !r.Quick() {
+		t = 3
+	}
+	r.Rule(fmt.Sprintf("documents: for each file type and each frame (version x layout) every feature vector with at most %d non-zero dimensions, every non-zero dimension at every value (%d-way exhaustive, not the full product); "+
+		"a document is a distinct non-trivial case iff its text is new, the reader accepts it and its accessor dump differs from the dump of the frame's empty document (the features had an effect). "+
+		"migration: every workspace of the workspace grammar; distinct iff the layout+config key is new and the migrator accepted it.", t, t))
+	r.Set("t_way", t)
+	r.Assume("the dimension grammar is t-way exhaustive (t=2 quick, t=3 thorough), not the full product of all features")
+	r.Assume("'the same configuration' is judged on the public accessors of the parsed objects (deep accessor dump); for v2 buf.yaml the TopLevelLintConfig/TopLevelBreakingConfig accessors are informational because hoisting identical per-module sections is the writer's documented freedom; the per-module effective configs are compared strictly")
+
+	runBufYAML(r, t)
+	if r.Expired() {
+		return
+	}
+	runBufLock(r, t)
+	runBufWork(r)
+	runBufGen(r, t)
+	if r.Expired() {
+		return
+	}
+	runMigration(r)
+}
+
+// ---------------------------------------------------------------------------------------------
+// buf.yaml
+// ---------------------------------------------------------------------------------------------
+
+func runBufYAML(r *evid.Run, t int) {
+	type job struct {
+		frame YFrame
+		dims  []Dim
+		ix    dimIndex
+		vecs  [][]int
+		base  string // dump JSON of the frame's empty document
+	}
+	var jobs []job
+	total := 0
+	dimCount := map[string]int{}
+	for _, f := range yFrames {
+		dims := yDims(f)
+		j := job{frame: f, dims: dims, ix: indexDims(dims), vecs: TWayAll(dims, t)}
+		base := renderBufYAML(f, dims, j.ix, make([]int, len(dims)))
+		bf, err := readBufYAML(base.Text)
+		if err != nil {
+			r.Incomplete(fmt.Sprintf("buf.yaml frame %s: the empty document is rejected: %v", f.Name, err))
+			continue
+		}
+		j.base = treeJSON(DumpBufYAML(bf))
+		jobs = append(jobs, j)
+		total += len(j.vecs)
+		dimCount[f.Name] = len(dims)
+	}
+	r.Set("bufyaml_frames", len(jobs))
+	r.Set("bufyaml_dimensions_per_frame", dimCount)
+	r.Set("bufyaml_documents_generated", total)
+
+	cov := newCounter()     // clause coverage
+	rejects := newCounter() // reject reasons
+	effect := newCounter()  // per "frame-independent dim=value": documents where the dump differed from base
+	seenDim := newCounter() // per dim=value: accepted documents containing it
+	var seenText sync.Map
+
+	// flatten the work list
+	type item struct{ j, k int }
+	items := make([]item, 0, total)
+	for ji, j := range jobs {
+		for k := range j.vecs {
+			items = append(items, item{ji, k})
+		}
+	}
+	r.ParallelFor(len(items), 0, func(i int) {
+		j := jobs[items[i].j]
+		v := j.vecs[items[i].k]
+		doc := renderBufYAML(j.frame, j.dims, j.ix, v)
+		if _, dup := seenText.LoadOrStore(doc.Text, true); dup {
+			cov.add("duplicate_text", 1)
+			return
+		}
+		r.Eval(1)
+		res := roundTripBufYAML(doc.Text)
+		if !res.accepted {
+			cov.add("rejected_by_reader", 1)
+			rejects.add(shorten(res.rejectWhy), 1)
+			return
+		}
+		cov.add("accepted", 1)
+		cov.add("accepted/"+j.frame.Version, 1)
+		dumpJSON := treeJSON(res.dump1)
+		changed := dumpJSON != j.base
+		for name, val := range doc.Vector {
+			key := fmt.Sprintf("%s=%d", name, val)
+			seenDim.add(key, 1)
+			if len(doc.Vector) == 1 && changed {
+				effect.add(key, 1)
+			}
+		}
+		if changed {
+			r.Distinct("bufyaml|" + doc.Text)
+		}
+		countBufYAMLClauses(cov, res)
+		r.SampleEvery(i, 4001, func() any { return m{"kind": "buf.yaml", "doc": doc, "written": res.written1} })
+		reportRoundTrip(r, "buf.yaml", res, doc)
+	})
+
+	snap := cov.snapshot()
+	r.Set("bufyaml_coverage", snap)
+	r.Set("bufyaml_reject_reasons_top", rejects.top(12))
+	// non-vacuity of clauses
+	for _, clause := range []string{
+		"accepted/v1beta1", "accepted/v1", "accepted/v2", "multi_module", "overlapping_module_paths", "same_dir_twice",
+		"has_includes", "has_excludes", "includes_on_single_root_module", "lint_disabled_module", "breaking_disabled_module",
+		"per_module_lint_differs", "written_hoisted_to_top_level", "written_per_module_sections", "has_deps", "has_plugins",
+		"deprecated_ids", "ignore_only_paths", "v1beta1_multiple_roots", "docs_link_preserved",
+	} {
+		if snap[clause] == 0 {
+			r.Incomplete("buf.yaml clause never exercised: " + clause)
+		}
+	}
+	// every single-dimension value must be accepted somewhere and have an observable effect
+	var dead []string
+	for _, j := range jobs {
+		for _, d := range j.dims {
+			if d.Name == "syntax" {
+				continue
+			}
+			for val := 1; val < d.N; val++ {
+				key := fmt.Sprintf("%s=%d", d.Name, val)
+				if seenDim.get(key) == 0 {
+					dead = append(dead, key+" (never accepted)")
+				} else if effect.get(key) == 0 && !noEffectExpected[key] {
+					dead = append(dead, key+" (no effect on the dump)")
+				}
+			}
+		}
+	}
+	dead = uniqueSorted(dead)
+	if len(dead) > 0 {
+		r.Incomplete("buf.yaml feature values without coverage: " + strings.Join(dead, ", "))
+	}
+}
+
+// noEffectExpected lists feature values that are accepted but by design do not change the parsed
+// configuration when they are the only feature (they matter in combination).
+var noEffectExpected = map[string]bool{
+	"l.ignore_only=3": true, // an empty path list is dropped by the reader
+	"b.ignore_only=3": true,
+	"l.ignore=4":      true, // a top-level ignore path outside every module is skipped
+	"b.ignore=4":      true,
+	"l.place=1":       true, "l.place=2": true, "l.place=3": false, "l.place=4": true, // placement of an empty block
+	"b.place=1": true, "b.place=2": true, "b.place=4": true,
+	"roots=3": true, // roots: ["."] is the default
+}
+
+func uniqueSorted(in []string) []string {
+	sort.Strings(in)
+	var out []string
+	for i, s := range in {
+		if i == 0 || s != in[i-1] {
+			out = append(out, s)
+		}
+	}
+	return out
+}
+
+func shorten(s string) string {
+	s = strings.ReplaceAll(s, "\n", " ")
+	if i := strings.Index(s, "decode buf.yaml: "); i >= 0 {
+		s = s[i+len("decode buf.yaml: "):]
+	}
+	// strip quoted user data so that reasons group
+	var b strings.Builder
+	inq := false
+	for _, r := range s {
+		if r == '"' {
+			inq = !inq
+			b.WriteRune('"')
+			continue
+		}
+		if !inq {
+			b.WriteRune(r)
+		}
+	}
+	s = b.String()
+	if len(s) > 110 {
+		s = s[:110]
+	}
+	return s
+}
+
+// countBufYAMLClauses measures which clauses of the property an accepted document exercised.
+func countBufYAMLClauses(cov *counter, res rtResult) {
+	d := res.dump1
+	mods, _ := d["modules"].([]any)
+	if len(mods) > 1 {
+		cov.add("multi_module", 1)
+	}
+	dirs := map[string]int{}
+	var lintDumps []string
+	for _, mm := range mods {
+		mod := mm.(tree)
+		dir := mod["dir"].(string)
+		dirs[dir]++
+		inc := mod["includes"].(tree)
+		exc := mod["excludes"].(tree)
+		nInc, nExc := 0, 0
+		for _, l := range inc {
+			nInc += len(l.([]any))
+		}
+		for _, l := range exc {
+			nExc += len(l.([]any))
+		}
+		if nInc > 0 {
+			cov.add("has_includes", 1)
+			if dir == "." && len(mods) == 1 && nExc == 0 {
+				cov.add("includes_on_single_root_module", 1)
+			}
+		}
+		if nExc > 0 {
+			cov.add("has_excludes", 1)
+		}
+		if len(inc) > 1 {
+			cov.add("v1beta1_multiple_roots", 1)
+		}
+		lint := mod["lint"].(tree)
+		brk := mod["breaking"].(tree)
+		if lint["disabled"].(bool) {
+			cov.add("lint_disabled_module", 1)
+		}
+		if brk["disabled"].(bool) {
+			cov.add("breaking_disabled_module", 1)
+		}
+		if len(lint["ignore_only"].(tree)) > 0 || len(brk["ignore_only"].(tree)) > 0 {
+			cov.add("ignore_only_paths", 1)
+		}
+		if len(lint["ignore"].([]any)) > 0 || len(brk["ignore"].([]any)) > 0 {
+			cov.add("ignore_paths", 1)
+		}
+		for _, id := range append(append([]any{}, lint["use"].([]any)...), append(lint["except"].([]any), append(brk["use"].([]any), brk["except"].([]any)...)...)...) {
+			switch id.(string) {
+			case "DEFAULT", "IMPORT_NO_WEAK", "FIELD_SAME_LABEL", "FIELD_SAME_CTYPE", "FILE_SAME_PHP_GENERIC_SERVICES":
+				cov.add("deprecated_ids", 1)
+			}
+		}
+		if lint["enum_zero_value_suffix"] != "" || lint["service_suffix"] != "" || lint["rpc_allow_same_request_response"].(bool) ||
+			lint["rpc_allow_google_protobuf_empty_requests"].(bool) || lint["rpc_allow_google_protobuf_empty_responses"].(bool) {
+			cov.add("lint_options", 1)
+		}
+		if brk["ignore_unstable_packages"].(bool) {
+			cov.add("breaking_ignore_unstable_packages", 1)
+		}
+		lintDumps = append(lintDumps, treeJSON(lint))
+	}
+	for i := 1; i < len(lintDumps); i++ {
+		if lintDumps[i] != lintDumps[0] {
+			cov.add("per_module_lint_differs", 1)
+			break
+		}
+	}
+	for dir, n := range dirs {
+		if n > 1 {
+			cov.add("same_dir_twice", 1)
+		}
+		for other := range dirs {
+			if other != dir && (dir == "." || strings.HasPrefix(other, dir+"/")) {
+				cov.add("overlapping_module_paths", 1)
+			}
+		}
+	}
+	if len(d["deps"].([]any)) > 0 {
+		cov.add("has_deps", 1)
+	}
+	if len(d["plugins"].([]any)) > 0 {
+		cov.add("has_plugins", 1)
+	}
+	if d["include_docs_link"].(bool) && strings.HasPrefix(res.written1, "# For details on buf.yaml configuration") {
+		cov.add("docs_link_preserved", 1)
+	}
+	if d["file_version"] == "v2" && res.written1 != "" {
+		topLevel := strings.Contains(res.written1, "\nlint:") || strings.Contains(res.written1, "\nbreaking:")
+		perModule := strings.Contains(res.written1, "\n    lint:") || strings.Contains(res.written1, "\n    breaking:")
+		if topLevel && len(mods) > 1 {
+			cov.add("written_hoisted_to_top_level", 1)
+		}
+		if perModule {
+			cov.add("written_per_module_sections", 1)
+		}
+	}
+	if len(res.topDiffs) > 0 {
+		cov.add("info_v2_top_level_accessor_changed", 1)
+	}
+	if len(res.diffs) == 0 && res.rereadErr == nil && res.writeErr == nil {
+		cov.add("round_trip_equal", 1)
+	}
+	if res.idempotent {
+		cov.add("write_idempotent", 1)
+	}
+}
